@@ -442,6 +442,35 @@ def h2_callsites(src, all_twins, log):
     return src
 
 
+def rename_self_named_params(src, log):
+    """N1: a parameter with the same name as its function (`fn line(line: &[Module])`) breaks Verus's
+    spec expansion once the function has requires/ensures; the parameter (not the function) is
+    alpha-renamed to `<name>_p` throughout the signature and body."""
+    while True:
+        msk = mask(src)
+        hit = None
+        for name, kw, bo, bc in find_fns(src, msk):
+            po = msk.index('(', kw)
+            pc = match_close(msk, po)
+            if re.search(r'(?<![\w.])%s\s*:' % re.escape(name), msk[po:pc]) and not re.search(r'\bself\b', msk[po:pc]):
+                hit = (name, po, bc)
+                break
+        if not hit:
+            return src
+        name, po, bc = hit
+        seg = src[po:bc + 1]
+        mseg = msk[po:bc + 1]
+        out = []
+        last = 0
+        for m in re.finditer(r'(?<![\w.])%s\b(?!\s*\()' % re.escape(name), mseg):
+            out.append(seg[last:m.start()])
+            out.append(name + '_p')
+            last = m.end()
+        out.append(seg[last:])
+        src = src[:po] + ''.join(out) + src[bc + 1:]
+        log.append('N1 parameter `%s` of fn %s renamed to %s_p' % (name, name, name))
+
+
 def sep_blocks(src, log):
     """S1: a loop immediately followed by a bare `{ .. }` block statement confuses Verus's clause parser;
     put an empty statement `;` between them (no semantic content)."""
@@ -474,6 +503,7 @@ def extract_module(path, log):
     src = misc_rewrites(src, log)
     src = rewrite_loops(src, log)
     src = sep_blocks(src, log)
+    src = rename_self_named_params(src, log)
     src, twins = h2_twins(src, log)
     # D1: derived Clone on a non-Copy struct: Verus's automatic specification says nothing about array
     # fields; the derive is made external and an assumed specification `r == *self` is generated.
